@@ -5,6 +5,7 @@ Line-protocol driver for the L0 slot model (C14/C15).
   ops    : push try_push pop insert i try_insert i remove i swap_remove i truncate n clear resize n
            resize_with n ext_slice n ext_within a b ext_iter hint n clone append n split_off i
            drain a b <script> into_iter <script> reserve n shrink_fit roundtrip drop
+           pop_if t|f from_iter hint n
            script = letters n (next) / b (next_back) ending with d (drop) or l (leak), e.g. `nbd`
   output : `<ret> | len=<n> | cap=<n> | ids=<…> | calls=<n> | trace: <events of this step>`
            ids canonicalised in order of first appearance over the whole run.
@@ -69,6 +70,9 @@ def parseOp (ws : List String) : Option Op :=
   | ["push"] => some .push
   | ["try_push"] => some .tryPush
   | ["pop"] => some .pop
+  | ["pop_if", "t"] => some (.popIf true)
+  | ["pop_if", "f"] => some (.popIf false)
+  | ["from_iter", h, n] => do some (.fromIter (← h.toNat?) (← n.toNat?))
   | ["insert", i] => i.toNat?.map .insert
   | ["try_insert", i] => i.toNat?.map .tryInsert
   | ["remove", i] => i.toNat?.map .remove
